@@ -5,7 +5,8 @@ ENTRY = {
     "streams": [
         {"name": "parsigdb", "drive": "drive-parsigdb", "model": "drv-parsigdb",
          "reset_ops": ["new"],
-         "n_quick": 12000, "seeds_quick": 2, "n_thorough": 150000, "seeds_thorough": 8},
+         "n_quick": 12000, "seeds_quick": 2, "n_thorough": 150000, "seeds_thorough": 8,
+         "search_seeds": 2},
     ],
     "level_text": "Kernel-checked Lean theorems over all sequences of the atomic steps begin/step/finish/trim "
                   "(every arrival order, every entry-wise interleaving of concurrent StoreInternal/StoreExternal "
